@@ -1,14 +1,525 @@
-(* AccessProofs.v — proofs for C45 (work in progress) *)
-Require Import SquidV.Bytes SquidV.SplayModel SquidV.TokModel SquidV.IntrangeModel SquidV.AccessModel.
-Require SquidV.AcldomModel SquidV.AclipModel.
+(* AccessProofs.v — proofs for C45: the http_access decision path (AccessModel.v) refines the
+   reference first-match evaluation over set-semantics ACLs.
+
+   1. bookkeeping: byte-string equality, find_acl / set_data, the four parse() routines continue where the
+      previous line of the same ACL stopped (…_app).
+   2. cfg_parse: after reading the lines, every named ACL object holds exactly what parsing ALL tokens of
+      its name from scratch yields, and the rule list is the list of non-empty http_access lines (or the
+      default "deny all").
+   3. semantic invariants of the four kinds of ACL data (from C41, C42, C43 and, for methods, here) and
+      their preservation by every lookup.
+   4. the walk: literal, rule, tree; a request; a sequence of requests.
+   5. the method-prefix defect: witness.
+   6. the C44 checklist machine on the same tree decides the same. *)
+Require Import SquidV.Bytes SquidV.SplayModel SquidV.TokModel SquidV.IntrangeModel SquidV.IntrangeProofs SquidV.AccessModel.
+Require SquidV.AcldomModel SquidV.AclipModel SquidV.AcldomProofs SquidV.AclipProofs.
+Require Import SquidV.gen.AccessMeth_gen.
+Require Import Lia ZifyBool ZifyN.
 Local Open Scope N_scope.
 
-Definition b_m : bytes := [109].
-Definition b_GE : bytes := [71; 69].
-Definition b_GET : bytes := [71; 69; 84].
-Definition wit_cfg : list line :=
-  [LAcl b_m TMeth [] [b_GE]; LAccess false [(false, b_m)]; LAccess true [(false, s_all)]].
-Definition wit_req (m : bytes) : request := mkReq 2130706435 m [49] (Some 2130706433) 80%Z.
+(* ================================================================== *)
+(* 1. bookkeeping                                                      *)
+Lemma list_eqb_spec (a : bytes) : forall b, list_eqb a b = true <-> a = b.
+Proof.
+  induction a as [|x a IH]; intros [|y b]; cbn [list_eqb]; try (split; [discriminate|discriminate]); [tauto|].
+  rewrite Bool.andb_true_iff, N.eqb_eq, IH. split; [intros [-> ->]; reflexivity| intros H; inversion H; auto].
+Qed.
+Lemma list_eqb_refl (a : bytes) : list_eqb a a = true.
+Proof. apply list_eqb_spec. reflexivity. Qed.
+Lemma list_eqb_neq (a b : bytes) : list_eqb a b = false <-> a <> b.
+Proof.
+  split.
+  - intros H E. apply list_eqb_spec in E. congruence.
+  - intros H. destruct (list_eqb a b) eqn:E; [apply list_eqb_spec in E; contradiction| reflexivity].
+Qed.
+Lemma list_eqb_sym (a b : bytes) : list_eqb a b = list_eqb b a.
+Proof.
+  destruct (list_eqb a b) eqn:E.
+  - apply list_eqb_spec in E. subst. symmetry. apply list_eqb_refl.
+  - apply list_eqb_neq in E. symmetry. apply list_eqb_neq. congruence.
+Qed.
 
-Lemma wit_run : access_run wit_cfg (mkEnv [] []) [wit_req b_GE; wit_req b_GET] = Some [OForward; ODeny403].
-Proof. vm_compute. reflexivity. Qed.
+Lemma find_acl_name name acls a : find_acl name acls = Some a -> a_name a = name.
+Proof.
+  induction acls as [|x r IH]; cbn [find_acl]; [discriminate|].
+  destruct (list_eqb (a_name x) name) eqn:E; [|exact IH].
+  intros H. inversion H; subst. apply list_eqb_spec, E.
+Qed.
+
+Lemma find_acl_app name acls x :
+  find_acl name (acls ++ [x]) =
+  match find_acl name acls with
+  | Some a => Some a
+  | None => if list_eqb (a_name x) name then Some x else None
+  end.
+Proof.
+  induction acls as [|y r IH]; cbn [find_acl app]; [reflexivity|].
+  destruct (list_eqb (a_name y) name); [reflexivity| exact IH].
+Qed.
+
+Lemma find_set name' name d acls :
+  find_acl name' (set_data name d acls) =
+  if list_eqb name' name
+  then match find_acl name acls with Some a => Some (mkAcl (a_name a) (a_type a) d) | None => None end
+  else find_acl name' acls.
+Proof.
+  induction acls as [|x r IH]; cbn [find_acl set_data].
+  - destruct (list_eqb name' name); reflexivity.
+  - destruct (list_eqb (a_name x) name) eqn:E1.
+    + apply list_eqb_spec in E1. cbn [find_acl a_name]. rewrite E1.
+      destruct (list_eqb name' name) eqn:E2.
+      * apply list_eqb_spec in E2. subst. rewrite list_eqb_refl. reflexivity.
+      * rewrite (list_eqb_sym name name'), E2. reflexivity.
+    + cbn [find_acl]. destruct (list_eqb (a_name x) name') eqn:E3.
+      * apply list_eqb_spec in E3. subst name'. rewrite E1. reflexivity.
+      * exact IH.
+Qed.
+
+(* ---- parse() continues where the previous line stopped ---- *)
+Lemma ip_parse_app A : forall B f4 f6 t n,
+  AclipModel.acl_parse_from f4 f6 t n (A ++ B) =
+  match AclipModel.acl_parse_from f4 f6 t n A with
+  | AclipModel.POk f4' f6' t' n' => AclipModel.acl_parse_from f4' f6' t' n' B
+  | bad => bad
+  end.
+Proof.
+  induction A as [|[tok sp] A IH]; intros B f4 f6 t n; cbn [app AclipModel.acl_parse_from]; [reflexivity|].
+  destruct (AclipModel.parse_global tok) as [[g4 g6]|]; [apply IH|].
+  destruct sp as [| |vals]; try reflexivity.
+  destruct (AclipModel.merge_all t n vals); try reflexivity. apply IH.
+Qed.
+
+Lemma dom_parse_app A : forall B t n,
+  AcldomModel.acl_parse_from t n (A ++ B) =
+  match AcldomModel.acl_parse_from t n A with
+  | AcldomModel.MOk t' n' => AcldomModel.acl_parse_from t' n' B
+  | bad => bad
+  end.
+Proof.
+  induction A as [|tok A IH]; intros B t n; cbn [app AcldomModel.acl_parse_from]; [reflexivity|].
+  destruct (AcldomModel.merge _ t n _); try reflexivity. apply IH.
+Qed.
+
+Lemma ir_parse_ub toks : forall acc ub ub', fst (ir_parse toks acc ub) = fst (ir_parse toks acc ub').
+Proof.
+  induction toks as [|t r IH]; intros acc ub ub'; cbn [ir_parse]; [reflexivity|].
+  destruct (ir_parse_token t) as [[rg|] o]; cbn [fst]; [apply IH| reflexivity].
+Qed.
+
+Lemma ir_parse_app A : forall B acc ub rs,
+  fst (ir_parse A acc ub) = Some rs ->
+  fst (ir_parse (A ++ B) acc ub) = fst (ir_parse B (rev rs) false).
+Proof.
+  induction A as [|t r IH]; intros B acc ub rs; cbn [ir_parse app].
+  - cbn [fst]. intros H. inversion H; subst. rewrite rev_involutive. apply ir_parse_ub.
+  - destruct (ir_parse_token t) as [[rg|] o]; cbn [fst]; [apply IH| discriminate].
+Qed.
+
+Lemma parse_into_app d0 ips1 txt1 d1 ips2 txt2 :
+  parse_into d0 ips1 txt1 = Some d1 ->
+  parse_into d1 ips2 txt2 = parse_into d0 (ips1 ++ ips2) (txt1 ++ txt2).
+Proof.
+  destruct d0 as [f4 f6 t n|t n|rs|vs]; cbn [parse_into].
+  - rewrite map_app, ip_parse_app.
+    destruct (AclipModel.acl_parse_from f4 f6 t n (map ip_spec ips1)); try discriminate.
+    intros H. inversion H; subst. reflexivity.
+  - rewrite dom_parse_app. destruct (AcldomModel.acl_parse_from t n txt1); try discriminate.
+    intros H. inversion H; subst. reflexivity.
+  - destruct (ir_parse txt1 (rev rs) false) as [[rs1|] u1] eqn:E1; [|discriminate].
+    intros H. inversion H; subst. cbn [parse_into].
+    pose proof (ir_parse_app txt1 txt2 (rev rs) false rs1 ltac:(rewrite E1; reflexivity)) as E.
+    destruct (ir_parse txt2 (rev rs1) false) as [[x|] ?]; destruct (ir_parse (txt1 ++ txt2) (rev rs) false) as [[y|] ?];
+      cbn [fst] in E; congruence.
+  - intros H. inversion H; subst. cbn [parse_into]. rewrite map_app, app_assoc. reflexivity.
+Qed.
+
+(* ================================================================== *)
+(* 2. what the lines of a configuration say (reference vocabulary)     *)
+Definition line_ips (name : bytes) (l : line) : list iptok :=
+  match l with LAcl n _ ips _ => if list_eqb n name then ips else [] | _ => [] end.
+Definition line_txt (name : bytes) (l : line) : list bytes :=
+  match l with LAcl n _ _ txt => if list_eqb n name then txt else [] | _ => [] end.
+(* all values given for a name, in the order of the lines *)
+Definition acl_ips (cfg : list line) (name : bytes) : list iptok := flat_map (line_ips name) cfg.
+Definition acl_txt (cfg : list line) (name : bytes) : list bytes := flat_map (line_txt name) cfg.
+(* the type of a name is the type of its first acl line *)
+Fixpoint acl_type (cfg : list line) (name : bytes) : option atype :=
+  match cfg with
+  | [] => None
+  | LAcl n ty _ _ :: r => if list_eqb n name then Some ty else acl_type r name
+  | _ :: r => acl_type r name
+  end.
+(* the http_access lines that name at least one ACL *)
+Definition line_rule (l : line) : list rule :=
+  match l with LAccess allow (t :: ts) => [(allow, t :: ts)] | _ => [] end.
+Definition raw_rules (cfg : list line) : list rule := flat_map line_rule cfg.
+
+Lemma acl_ips_app a b name : acl_ips (a ++ b) name = acl_ips a name ++ acl_ips b name.
+Proof. unfold acl_ips. apply flat_map_app. Qed.
+Lemma acl_txt_app a b name : acl_txt (a ++ b) name = acl_txt a name ++ acl_txt b name.
+Proof. unfold acl_txt. apply flat_map_app. Qed.
+Lemma raw_rules_app a b : raw_rules (a ++ b) = raw_rules a ++ raw_rules b.
+Proof. unfold raw_rules. apply flat_map_app. Qed.
+Lemma acl_type_app a b name :
+  acl_type (a ++ b) name = match acl_type a name with Some ty => Some ty | None => acl_type b name end.
+Proof.
+  induction a as [|l a IH]; cbn [app acl_type]; [reflexivity|].
+  destruct l as [n ty ips txt|al ts]; [|exact IH]. destruct (list_eqb n name); [reflexivity| exact IH].
+Qed.
+
+(* the state of the parser after the lines [pre] *)
+Definition acl_parsed (pre : list line) (name : bytes) (a : aclobj) : Prop :=
+  a_name a = name /\ acl_type pre name = Some (a_type a) /\ parse_into (empty_data (a_type a)) (acl_ips pre name) (acl_txt pre name) = Some (a_data a).
+
+Definition parsed (pre : list line) (s : cstate) : Prop :=
+  (forall name, match find_acl name (c_acls s) with
+                | Some a => acl_parsed pre name a
+                | None => acl_type pre name = None
+                end) /\ c_rules s = raw_rules pre /\ (forall r t, In r (c_rules s) -> In t (snd r) -> find_acl (snd t) (c_acls s) <> None).
+
+Lemma parsed_nil : parsed [] (mkC [] []).
+Proof. split; [intros name; reflexivity|]. split; [reflexivity|]. intros r t []. Qed.
+
+Lemma empty_data_parse_shape ty ips txt d :
+  parse_into (empty_data ty) ips txt = Some d ->
+  match ty, d with
+  | (TSrc | TDst), DIp _ _ _ _ | TDom, DDom _ _ | TPort, DPort _ | TMeth, DMeth _ => True
+  | _, _ => False
+  end.
+Proof.
+  destruct ty; cbn [empty_data parse_into].
+  1,2: destruct (AclipModel.acl_parse_from _ _ _ _ _); try discriminate; intros H; inversion H; exact I.
+  - destruct (AcldomModel.acl_parse_from _ _ _); try discriminate; intros H; inversion H; exact I.
+  - destruct (ir_parse _ _ _) as [[?|] ?]; try discriminate; intros H; inversion H; exact I.
+  - intros H; inversion H; exact I.
+Qed.
+
+Lemma cfg_step_parsed pre s l s' : parsed pre s -> cfg_step s l = Some s' -> parsed (pre ++ [l]) s'.
+Proof.
+  intros (HA & HR & HN) Hs. destruct l as [name ty ips txt|allow terms]; cbn [cfg_step] in Hs.
+  - (* acl line *)
+    pose proof (HA name) as Hn.
+    destruct (find_acl name (c_acls s)) as [a|] eqn:Ef.
+    + destruct (atype_eqb (a_type a) ty) eqn:Et; [|discriminate].
+      assert (Ety : a_type a = ty) by (destruct (a_type a), ty; cbn in Et; congruence).
+      destruct (parse_into (a_data a) ips txt) as [d|] eqn:Ep; [|discriminate]. inversion Hs; subst s'. clear Hs.
+      destruct Hn as (N1 & N2 & N3).
+      split; [|split].
+      * intros name'. cbn [c_acls]. rewrite find_set.
+        destruct (list_eqb name' name) eqn:E.
+        -- apply list_eqb_spec in E. subst name'. rewrite Ef. unfold acl_parsed. cbn [a_name a_type a_data].
+           split; [exact N1|]. split; [rewrite acl_type_app, N2; reflexivity|].
+           rewrite acl_ips_app, acl_txt_app. unfold acl_ips at 2, acl_txt at 2. cbn [flat_map line_ips line_txt].
+           rewrite list_eqb_refl, !app_nil_r. rewrite <- (parse_into_app _ _ _ _ ips txt N3). exact Ep.
+        -- apply list_eqb_neq in E. specialize (HA name').
+           assert (Ei : acl_ips (pre ++ [LAcl name ty ips txt]) name' = acl_ips pre name').
+           { rewrite acl_ips_app. unfold acl_ips at 2. cbn [flat_map line_ips].
+             rewrite (proj2 (list_eqb_neq name name') ltac:(congruence)). rewrite !app_nil_r. reflexivity. }
+           assert (Ex : acl_txt (pre ++ [LAcl name ty ips txt]) name' = acl_txt pre name').
+           { rewrite acl_txt_app. unfold acl_txt at 2. cbn [flat_map line_txt].
+             rewrite (proj2 (list_eqb_neq name name') ltac:(congruence)). rewrite !app_nil_r. reflexivity. }
+           assert (Ey : acl_type (pre ++ [LAcl name ty ips txt]) name' = acl_type pre name').
+           { rewrite acl_type_app. cbn [acl_type]. rewrite (proj2 (list_eqb_neq name name') ltac:(congruence)).
+             destruct (acl_type pre name'); reflexivity. }
+           destruct (find_acl name' (c_acls s)) as [b|]; [|rewrite Ey; exact HA].
+           unfold acl_parsed in *. rewrite Ei, Ex, Ey. exact HA.
+      * cbn [c_rules]. rewrite raw_rules_app. cbn [raw_rules flat_map line_rule]. rewrite app_nil_r. exact HR.
+      * cbn [c_rules c_acls]. intros r t Hr Ht. rewrite find_set. specialize (HN r t Hr Ht).
+        destruct (list_eqb (snd t) name); [rewrite Ef; discriminate| exact HN].
+    + destruct (parse_into (empty_data ty) ips txt) as [d|] eqn:Ep; [|discriminate]. inversion Hs; subst s'. clear Hs.
+      split; [|split].
+      * intros name'. cbn [c_acls]. rewrite find_acl_app. specialize (HA name').
+        destruct (find_acl name' (c_acls s)) as [b|] eqn:Eb.
+        -- assert (Hne : name <> name').
+           { intros ->. rewrite Ef in Eb. discriminate. }
+           unfold acl_parsed in *. rewrite acl_ips_app, acl_txt_app, acl_type_app.
+           unfold acl_ips at 2, acl_txt at 2. cbn [flat_map line_ips line_txt].
+           rewrite (proj2 (list_eqb_neq name name') Hne), !app_nil_r.
+           destruct HA as (H1 & H2 & H3). rewrite H2. auto.
+        -- cbn [a_name]. destruct (list_eqb name name') eqn:E.
+           ++ apply list_eqb_spec in E. subst name'. unfold acl_parsed. cbn [a_name a_type a_data].
+              split; [reflexivity|]. rewrite acl_type_app, HA. cbn [acl_type]. rewrite list_eqb_refl.
+              split; [reflexivity|].
+              assert (Ei : acl_ips pre name = []).
+              { clear -HA. induction pre as [|l pre IH]; [reflexivity|]. cbn [acl_type] in HA. unfold acl_ips. cbn [flat_map].
+                destruct l as [n ty' i x|? ?]; cbn [line_ips].
+                - destruct (list_eqb n name); [discriminate|]. apply IH, HA.
+                - apply IH, HA. }
+              assert (Ex : acl_txt pre name = []).
+              { clear -HA. induction pre as [|l pre IH]; [reflexivity|]. cbn [acl_type] in HA. unfold acl_txt. cbn [flat_map].
+                destruct l as [n ty' i x|? ?]; cbn [line_txt].
+                - destruct (list_eqb n name); [discriminate|]. apply IH, HA.
+                - apply IH, HA. }
+              rewrite acl_ips_app, acl_txt_app, Ei, Ex. unfold acl_ips, acl_txt. cbn [flat_map line_ips line_txt app].
+              rewrite list_eqb_refl, !app_nil_r. exact Ep.
+           ++ rewrite acl_type_app, HA. cbn [acl_type]. rewrite E. reflexivity.
+      * cbn [c_rules]. rewrite raw_rules_app. cbn [raw_rules flat_map line_rule]. rewrite app_nil_r. exact HR.
+      * cbn [c_rules c_acls]. intros r t Hr Ht. rewrite find_acl_app. specialize (HN r t Hr Ht).
+        destruct (find_acl (snd t) (c_acls s)); [discriminate| contradiction].
+  - (* http_access line *)
+    destruct (forallb _ terms) eqn:Ef; [|discriminate].
+    assert (HAcc : forall pre' : unit, (forall name, acl_ips (pre ++ [LAccess allow terms]) name = acl_ips pre name) /\                        (forall name, acl_txt (pre ++ [LAccess allow terms]) name = acl_txt pre name) /\                        (forall name, acl_type (pre ++ [LAccess allow terms]) name = acl_type pre name)).
+    { intros _. repeat split; intros name.
+      - rewrite acl_ips_app. unfold acl_ips at 2. cbn. apply app_nil_r.
+      - rewrite acl_txt_app. unfold acl_txt at 2. cbn. apply app_nil_r.
+      - rewrite acl_type_app. cbn [acl_type]. destruct (acl_type pre name); reflexivity. }
+    destruct (HAcc tt) as (Ei & Ex & Ey).
+    assert (HA' : forall name, match find_acl name (c_acls s) with
+                               | Some a => acl_parsed (pre ++ [LAccess allow terms]) name a
+                               | None => acl_type (pre ++ [LAccess allow terms]) name = None end).
+    { intros name. specialize (HA name). destruct (find_acl name (c_acls s)); [|rewrite Ey; exact HA].
+      unfold acl_parsed in *. rewrite Ei, Ex, Ey. exact HA. }
+    destruct terms as [|t ts].
+    + inversion Hs; subst s'. split; [exact HA'|]. split.
+      * rewrite raw_rules_app. cbn [raw_rules flat_map line_rule]. rewrite app_nil_r. exact HR.
+      * exact HN.
+    + inversion Hs; subst s'. cbn [c_acls c_rules]. split; [exact HA'|]. split.
+      * rewrite raw_rules_app, HR. reflexivity.
+      * intros r t' Hr Ht. apply in_app_or in Hr. destruct Hr as [Hr|[<-|[]]]; [exact (HN r t' Hr Ht)|].
+        cbn [snd] in Ht. cbn [c_acls]. rewrite forallb_forall in Ef. specialize (Ef t' Ht).
+        destruct (find_acl (snd t') (c_acls s)); [discriminate| discriminate Ef].
+Qed.
+
+Lemma cfg_steps_parsed rest : forall pre s s', parsed pre s -> cfg_steps s rest = Some s' -> parsed (pre ++ rest) s'.
+Proof.
+  induction rest as [|l rest IH]; intros pre s s' HP Hs; cbn [cfg_steps] in Hs.
+  - inversion Hs; subst. rewrite app_nil_r. exact HP.
+  - destruct (cfg_step s l) as [s1|] eqn:E; [|discriminate].
+    replace (pre ++ l :: rest) with ((pre ++ [l]) ++ rest) by (rewrite <- app_assoc; reflexivity).
+    apply (IH _ s1); [apply (cfg_step_parsed pre s l s1 HP E)| exact Hs].
+Qed.
+
+(* the rule list of the reference: the non-empty http_access lines, or "deny all" when there is none *)
+Definition ref_rules (cfg : list line) : list rule :=
+  match raw_rules cfg with [] => [(false, [(false, s_all)])] | rs => rs end.
+
+Definition full (cfg : list line) : list line := predefined ++ cfg.
+
+Theorem cfg_parse_parsed cfg s : cfg_parse cfg = Some s ->
+  (forall name, match find_acl name (c_acls s) with
+                | Some a => acl_parsed (full cfg) name a
+                | None => acl_type (full cfg) name = None
+                end) /\ c_rules s = ref_rules (full cfg) /\ (forall r t, In r (c_rules s) -> In t (snd r) -> find_acl (snd t) (c_acls s) <> None).
+Proof.
+  unfold cfg_parse, full. intros H.
+  destruct (cfg_steps (mkC [] []) (predefined ++ cfg)) as [s1|] eqn:E1; [|discriminate].
+  pose proof (cfg_steps_parsed _ [] _ _ parsed_nil E1) as P1. cbn [app] in P1.
+  destruct (c_rules s1) as [|r0 rs0] eqn:ER.
+  - pose proof (cfg_step_parsed _ _ _ _ P1 H) as (PA & PR & PN).
+    destruct P1 as (PA1 & PR1 & _). rewrite ER in PR1.
+    split; [|split].
+    + intros name. specialize (PA name). destruct (find_acl name (c_acls s)) as [a|].
+      * unfold acl_parsed in *. rewrite acl_ips_app, acl_txt_app, acl_type_app in PA.
+        unfold acl_ips at 2, acl_txt at 2 in PA. cbn [flat_map line_ips line_txt default_rule acl_type] in PA.
+        rewrite !app_nil_r in PA. destruct PA as (Q1 & Q2 & Q3). split; [exact Q1|]. split; [|exact Q3].
+        destruct (acl_type (predefined ++ cfg) name); [exact Q2| discriminate].
+      * rewrite acl_type_app in PA. destruct (acl_type (predefined ++ cfg) name); [discriminate| reflexivity].
+    + rewrite PR, raw_rules_app. unfold ref_rules. cbn [app] in PR1 |- *. rewrite <- PR1. reflexivity.
+    + exact PN.
+  - inversion H; subst s1. destruct P1 as (PA & PR & PN). split; [exact PA|]. split; [|exact PN].
+    unfold ref_rules. cbn [app] in PR |- *. rewrite <- PR, ER. reflexivity.
+Qed.
+
+(* ================================================================== *)
+(* 3a. IP values (src, dst): C42                                       *)
+Module IP := SquidV.AclipProofs.
+Module IM := SquidV.AclipModel.
+
+Definition W32 : N := 4294967296.
+
+(* the values the property quantifies over: IPv4, ends ordered, prefix length 1..32, no host bits *)
+Definition iptok_ok (t : iptok) : Prop :=
+  match t with
+  | IWord w => IM.parse_global w <> None
+  | ISingle a => a < W32
+  | ICidr a n => a < W32 /\ 1 <= n <= 32 /\ a mod 2 ^ (32 - n) = 0
+  | IRange a b => a <= b /\ b < W32
+  | IRangeCidr a b n => a <= b /\ b < W32 /\ 1 <= n <= 32 /\ a mod 2 ^ (32 - n) = 0 /\ b mod 2 ^ (32 - n) = 0
+  end.
+
+(* the set of (32-bit) addresses a value stands for *)
+Definition ip_in (x : N) (t : iptok) : Prop :=
+  match t with
+  | IWord w => exists g6, IM.parse_global w = Some (true, g6)          (* all, ipv4 and the legacy spellings of all *)
+  | ISingle a => x = a
+  | ICidr a n => a <= x <= a + (2 ^ (32 - n) - 1)
+  | IRange a b => a <= x <= b
+  | IRangeCidr a b n => a <= x <= b + (2 ^ (32 - n) - 1)
+  end.
+
+Definition cv_of (t : iptok) : list IP.cval :=
+  match t with
+  | IWord _ => []
+  | ISingle a => [IP.CNet (v4 a) 0]
+  | ICidr a n => [IP.CNet (v4 a) (32 - n)]
+  | IRange a b => [IP.CRange (v4 a) (v4 b) 0]
+  | IRangeCidr a b n => [IP.CRange (v4 a) (v4 b) (32 - n)]
+  end.
+
+Lemma V4ANY_eq : IM.V4ANY = 65535 * W32. Proof. reflexivity. Qed.
+Lemma TOP_big : W32 * W32 * W32 * W32 = IM.TOP. Proof. reflexivity. Qed.
+
+Lemma pow_le_32 h : h <= 32 -> 0 < 2 ^ h /\ W32 = 2 ^ (32 - h) * 2 ^ h.
+Proof.
+  intros H. split; [apply IP.pow2_pos|]. rewrite <- N.pow_add_r. replace (32 - h + h) with 32 by lia. reflexivity.
+Qed.
+
+Lemma v4_aligned a h : h <= 32 -> a mod 2 ^ h = 0 -> v4 a mod 2 ^ h = 0.
+Proof.
+  intros Hh Ha. destruct (pow_le_32 h Hh) as [HP E]. unfold v4. rewrite V4ANY_eq, E.
+  rewrite N.mul_assoc, N.add_comm, N.mod_add by lia. exact Ha.
+Qed.
+
+Lemma aligned_bound a P M : 0 < P -> a mod P = 0 -> M mod P = 0 -> a < M -> a + P <= M.
+Proof.
+  intros HP Ha HM Hlt.
+  assert (Ea : a = P * (a / P)) by (apply N.div_exact; lia).
+  assert (Em : M = P * (M / P)) by (apply N.div_exact; lia).
+  set (q := a / P) in *. set (r := M / P) in *. clearbody q r. clear Ha HM.
+  assert (Hq : q < r) by (apply (N.mul_lt_mono_pos_l P); lia).
+  assert (Hm : P * (q + 1) <= P * r) by (apply N.mul_le_mono_l; lia).
+  rewrite N.mul_add_distr_l, N.mul_1_r in Hm. lia.
+Qed.
+
+Lemma w32_aligned h : h <= 32 -> W32 mod 2 ^ h = 0.
+Proof.
+  intros Hh. destruct (pow_le_32 h Hh) as [HP E]. rewrite E. apply N.mod_mul. lia.
+Qed.
+
+Lemma v4_lt_top a : a < W32 -> v4 a < IM.TOP.
+Proof. intros H. unfold v4. rewrite V4ANY_eq, <- TOP_big. unfold W32 in *. lia. Qed.
+
+Lemma v4_is_v4 a : a < W32 -> IM.isIPv4 (v4 a) = true.
+Proof. intros H. apply IP.isIPv4_range. unfold v4, IM.V4NO. rewrite V4ANY_eq. unfold W32 in *. lia. Qed.
+
+Lemma tok_plain_not_global : IM.parse_global tok_plain = None. Proof. reflexivity. Qed.
+
+Lemma cidr_val a n : a < W32 -> 1 <= n <= 32 -> a mod 2 ^ (32 - n) = 0 ->
+  IM.mask_of_cidr n true = Some (IP.pmask (32 - n)) /\ IM.applyMask (v4 a) (IP.pmask (32 - n)) = v4 a.
+Proof.
+  intros Ha Hn Hal. split; [apply (IP.mask_of_cidr_pmask n true); lia|].
+  unfold IM.applyMask. rewrite IP.land_pmask by (try apply v4_lt_top; lia).
+  symmetry. apply IP.aligned_mul; [pose proof (IP.pow2_pos (32 - n)); lia|]. apply v4_aligned; [lia| exact Hal].
+Qed.
+
+(* FactoryParse() stores for a well-formed value exactly the triple C42 reasons about *)
+Lemma ip_spec_cv t : iptok_ok t ->
+  IP.tok_parsed (ip_spec t) /\ IP.tok_vals (ip_spec t) = map IP.cv_val (cv_of t) /\
+  Forall IP.cv_ok (cv_of t) /\ Forall IP.v4_only (cv_of t).
+Proof.
+  destruct t as [w|a|a n|a b|a b n]; cbn [iptok_ok ip_spec cv_of map]; intros H.
+  - destruct (IM.parse_global w) as [g|] eqn:E; [|contradiction].
+    split; [left; cbn [fst]; rewrite E; discriminate|]. unfold IP.tok_vals. cbn [fst]. rewrite E. auto.
+  - split; [right; eexists; reflexivity|]. unfold IP.tok_vals. cbn [fst snd]. rewrite tok_plain_not_global.
+    split; [cbn [IP.cv_val]; rewrite IP.pmask_0; reflexivity|].
+    pose proof (v4_lt_top a H). split; constructor; try constructor.
+    + cbn [IP.cv_ok]. rewrite N.pow_0_r, N.mod_1_r. lia.
+    + unfold IP.v4_only. cbn [IP.cv_lo IP.cv_hi]. rewrite N.pow_0_r, N.add_0_r. split; apply v4_is_v4, H.
+  - destruct H as (Ha & Hn & Hal). destruct (cidr_val a n Ha Hn Hal) as [Em Ev]. rewrite Em, Ev.
+    split; [right; eexists; reflexivity|]. unfold IP.tok_vals. cbn [fst snd]. rewrite tok_plain_not_global.
+    unfold IM.applyMask. rewrite N.land_0_l. split; [reflexivity|].
+    destruct (pow_le_32 (32 - n) ltac:(lia)) as [HP _].
+    pose proof (aligned_bound a (2 ^ (32 - n)) W32 HP Hal (w32_aligned _ ltac:(lia)) Ha) as Hb.
+    split; constructor; try constructor.
+    + cbn [IP.cv_ok]. split; [lia|]. split; [apply v4_lt_top, Ha|]. apply v4_aligned; [lia| exact Hal].
+    + unfold IP.v4_only. cbn [IP.cv_lo IP.cv_hi]. split; [apply v4_is_v4, Ha|].
+      replace (v4 a + (2 ^ (32 - n) - 1)) with (v4 (a + (2 ^ (32 - n) - 1))) by (unfold v4; lia). apply v4_is_v4. lia.
+  - destruct H as (Hab & Hb).
+    split; [right; eexists; reflexivity|]. unfold IP.tok_vals. cbn [fst snd]. rewrite tok_plain_not_global.
+    split; [cbn [IP.cv_val]; rewrite IP.pmask_0; reflexivity|].
+    pose proof (v4_lt_top b Hb). split; constructor; try constructor.
+    + cbn [IP.cv_ok]. rewrite N.pow_0_r, !N.mod_1_r. unfold v4 in *. repeat split; try lia.
+    + unfold IP.v4_only. cbn [IP.cv_lo IP.cv_hi]. rewrite N.pow_0_r, N.add_0_r. split; apply v4_is_v4; lia.
+  - destruct H as (Hab & Hb & Hn & Hala & Halb). assert (Ha : a < W32) by lia.
+    destruct (cidr_val a n Ha Hn Hala) as [Em Eva]. destruct (cidr_val b n Hb Hn Halb) as [_ Evb]. rewrite Em, Eva, Evb.
+    split; [right; eexists; reflexivity|]. unfold IP.tok_vals. cbn [fst snd]. rewrite tok_plain_not_global.
+    split; [reflexivity|].
+    destruct (pow_le_32 (32 - n) ltac:(lia)) as [HP _].
+    pose proof (aligned_bound b (2 ^ (32 - n)) W32 HP Halb (w32_aligned _ ltac:(lia)) Hb) as Hbb.
+    split; constructor; try constructor.
+    + cbn [IP.cv_ok]. pose proof (v4_lt_top b Hb). pose proof (v4_aligned a (32 - n) ltac:(lia) Hala).
+      pose proof (v4_aligned b (32 - n) ltac:(lia) Halb). unfold v4 in *. repeat split; try lia.
+    + unfold IP.v4_only. cbn [IP.cv_lo IP.cv_hi]. split; [apply v4_is_v4, Ha|].
+      replace (v4 b + (2 ^ (32 - n) - 1)) with (v4 (b + (2 ^ (32 - n) - 1))) by (unfold v4; lia). apply v4_is_v4. lia.
+Qed.
+
+Lemma ip_in_cv x t : iptok_ok t ->
+  (ip_in x t <-> (exists w g6, t = IWord w /\ IM.parse_global w = Some (true, g6)) \/
+                 (exists c, In c (cv_of t) /\ IP.cv_in (v4 x) c)).
+Proof.
+  destruct t as [w|a|a n|a b|a b n]; cbn [iptok_ok ip_in cv_of In]; intros H.
+  - split.
+    + intros [g6 E]. left. exists w, g6. auto.
+    + intros [(w' & g6 & E1 & E2)|(c & [] & _)]. inversion E1; subst. exists g6. exact E2.
+  - split.
+    + intros ->. right. eexists. split; [left; reflexivity|]. unfold IP.cv_in. cbn [IP.cv_lo IP.cv_hi]. rewrite N.pow_0_r. lia.
+    + intros [(w & g6 & E & _)|(c & [<-|[]] & Hc)]; [discriminate|]. unfold IP.cv_in in Hc. cbn [IP.cv_lo IP.cv_hi] in Hc.
+      rewrite N.pow_0_r in Hc. unfold v4 in Hc. lia.
+  - split.
+    + intros Hx. right. eexists. split; [left; reflexivity|]. unfold IP.cv_in. cbn [IP.cv_lo IP.cv_hi]. unfold v4. lia.
+    + intros [(w & g6 & E & _)|(c & [<-|[]] & Hc)]; [discriminate|]. unfold IP.cv_in in Hc. cbn [IP.cv_lo IP.cv_hi] in Hc.
+      unfold v4 in Hc. lia.
+  - split.
+    + intros Hx. right. eexists. split; [left; reflexivity|]. unfold IP.cv_in. cbn [IP.cv_lo IP.cv_hi]. rewrite N.pow_0_r. unfold v4. lia.
+    + intros [(w & g6 & E & _)|(c & [<-|[]] & Hc)]; [discriminate|]. unfold IP.cv_in in Hc. cbn [IP.cv_lo IP.cv_hi] in Hc.
+      rewrite N.pow_0_r in Hc. unfold v4 in Hc. lia.
+  - split.
+    + intros Hx. right. eexists. split; [left; reflexivity|]. unfold IP.cv_in. cbn [IP.cv_lo IP.cv_hi]. unfold v4. lia.
+    + intros [(w & g6 & E & _)|(c & [<-|[]] & Hc)]; [discriminate|]. unfold IP.cv_in in Hc. cbn [IP.cv_lo IP.cv_hi] in Hc.
+      unfold v4 in Hc. lia.
+Qed.
+
+Definition cvs (ips : list iptok) : list IP.cval := flat_map cv_of ips.
+
+Lemma ips_facts ips : Forall iptok_ok ips ->
+  Forall IP.tok_parsed (map ip_spec ips) /\ IP.vals_of (map ip_spec ips) = map IP.cv_val (cvs ips) /\
+  Forall IP.cv_ok (cvs ips) /\ Forall IP.v4_only (cvs ips) /\
+  (IP.any4 (map ip_spec ips) = true <-> exists w g6, In (IWord w) ips /\ IM.parse_global w = Some (true, g6)).
+Proof.
+  induction ips as [|t ips IH]; intros H.
+  - cbn. repeat split; try constructor; [discriminate| intros (w & g6 & [] & _)].
+  - inversion H as [|? ? Ht Hr]; subst. destruct (IH Hr) as (I1 & I2 & I3 & I4 & I5).
+    destruct (ip_spec_cv t Ht) as (S1 & S2 & S3 & S4).
+    split; [constructor; assumption|]. split.
+    { unfold IP.vals_of, cvs in *. cbn [map flat_map]. rewrite map_app, <- S2, <- I2. reflexivity. }
+    split; [unfold cvs; cbn [flat_map]; apply Forall_app; auto|].
+    split; [unfold cvs; cbn [flat_map]; apply Forall_app; auto|].
+    unfold IP.any4 in *. cbn [map existsb]. rewrite Bool.orb_true_iff, I5. split.
+    + intros [Hh|(w & g6 & Hin & E)]; [|exists w, g6; split; [right; exact Hin| exact E]].
+      destruct t as [w|a|a n|a b|a b n]; cbn [ip_spec fst] in Hh; try (rewrite tok_plain_not_global in Hh; discriminate).
+      destruct (IM.parse_global w) as [[g4 g6]|] eqn:E; [|discriminate]. subst g4. exists w, g6. split; [left; reflexivity| exact E].
+    + intros (w & g6 & [->|Hin] & E); [left; cbn [ip_spec fst]; rewrite E; reflexivity| right; exists w, g6; auto].
+Qed.
+
+(* the invariant of an ACLIP object whose lines listed [ips] *)
+Definition ip_inv (ips : list iptok) (f4 f6 : bool) (t : tree IM.ipval) : Prop :=
+  f4 = IP.any4 (map ip_spec ips) /\ f6 = IP.any6 (map ip_spec ips) /\ IP.stored_ok (cvs ips) t.
+
+Lemma ip_parse_inv ips f4 f6 t n : Forall iptok_ok ips ->
+  IM.acl_parse_from false false (@Leaf _) 0%Z (map ip_spec ips) = IM.POk f4 f6 t n -> ip_inv ips f4 f6 t.
+Proof.
+  intros H E. destruct (ips_facts ips H) as (I1 & I2 & I3 & I4 & _).
+  pose proof (IP.v4_lists_quirk_free (cvs ips) 0 I3 I4) as Q.
+  destruct (IP.acl_parse_ok _ _ I1 I2 I3 (IP.quirk_free_vals_of _ _ Q)) as (t' & n' & E' & St).
+  unfold IM.acl_parse in E'. rewrite E in E'. inversion E'; subst. split; [reflexivity|]. split; [reflexivity| exact St].
+Qed.
+
+(* ACLIP::match(address): the invariant survives, the answer is membership in the union *)
+Lemma ip_lookup ips f4 f6 t x : Forall iptok_ok ips -> ip_inv ips f4 f6 t -> x < W32 ->
+  ip_inv ips f4 f6 (fst (IM.acl_match f4 f6 t (v4 x))) /\
+  (snd (IM.acl_match f4 f6 t (v4 x)) = true <-> exists tk, In tk ips /\ ip_in x tk).
+Proof.
+  intros H (E4 & E6 & St) Hx. destruct (ips_facts ips H) as (I1 & I2 & I3 & I4 & I5).
+  pose proof (IP.v4_lists_quirk_free (cvs ips) (v4 x) I3 I4) as Q.
+  destruct (IP.acl_match_ok (cvs ips) t f4 f6 (v4 x) I3 St (v4_lt_top x Hx) Q) as [St' Hm].
+  split; [split; [exact E4|]; split; [exact E6| exact St']|].
+  rewrite Hm. unfold IP.acl_spec. rewrite (v4_is_v4 x Hx). rewrite Forall_forall in H. split.
+  - intros [[F _]|[[F _]|[[_ F]|(c & Hc & Hin)]]]; try discriminate.
+    1,2: rewrite E4 in F; apply I5 in F; destruct F as (w & g6 & Hw & E); exists (IWord w); split; [exact Hw| exists g6; exact E].
+    unfold cvs in Hc. apply in_flat_map in Hc. destruct Hc as (tk & Htk & Hc). exists tk. split; [exact Htk|].
+    apply (ip_in_cv x tk (H tk Htk)). right. exists c. auto.
+  - intros (tk & Htk & Hin). apply (ip_in_cv x tk (H tk Htk)) in Hin.
+    destruct Hin as [(w & g6 & -> & E)|(c & Hc & Hin)].
+    + right. left. split; [|reflexivity]. rewrite E4. apply I5. exists w, g6. auto.
+    + right. right. right. exists c. split; [|exact Hin]. unfold cvs. apply in_flat_map. exists tk. auto.
+Qed.
